@@ -184,7 +184,7 @@ static void observe(qhasharr_t *t, const model_t *m, int check, const char *who,
 }
 
 /* ---------- operations ---------- */
-enum { OP_PUT, OP_REMOVE, OP_REMOVEIDX, OP_CLEAR };
+enum { OP_PUT, OP_REMOVE, OP_REMOVEIDX, OP_CLEAR, OP_WALKRM };
 typedef struct { int kind, k, li; const char *label; } op_t;
 static op_t OPS[64]; static int NOPS;
 static int slot_key(unsigned char *reg, int i) {   /* which universe key lives in key slot i (by length, prefix, digest) */
@@ -197,6 +197,8 @@ static int slot_key(unsigned char *reg, int i) {   /* which universe key lives i
     }
     return -2;
 }
+static long n_walkrm;
+static int keyid_prefix(const void *name, size_t ns, unsigned char *reg, int slot) { (void)name; (void)ns; int k = slot_key(reg, slot); return k >= 0 ? k : -1; }
 /* run op on region through a fresh handle; returns result code: 0 false / 1 true, and errno in *er; updates the model if check */
 static int run_op(unsigned char *reg, const op_t *op, model_t *m, int check, const char *after, int *er) {
     qhasharr_t *t = qhasharr(reg, 0);
@@ -242,6 +244,26 @@ static int run_op(unsigned char *reg, const op_t *op, model_t *m, int check, con
             break;
         }
         case OP_CLEAR: t->clear(t); r = 1; if (check) for (int k = 0; k < NK; k++) m->len[k] = -1; break;
+        case OP_WALKRM: {   /* the documented loop: getnext; remove_by_idx(idx - 1) for the j-th element; idx--; go on. Every other key must still be visited */
+            int idx = 0, n = 0, seen[NK] = {0}, removed = -1; qhasharr_obj_t ob;
+            while (t->getnext(t, &ob, &idx)) {
+                n++;
+                int k = keyid_prefix(ob.name, ob.namesize, reg, idx - 1);
+                free(ob.name); free(ob.data);
+                if (k >= 0) seen[k]++;
+                if (n == op->k && removed < 0) {
+                    removed = k >= 0 ? k : NK;
+                    int rr = t->remove_by_idx(t, idx - 1);
+                    if (check && !rr) vc_viol("image:removeidx-result", "%s: remove_by_idx(%d) inside the walk failed for the element just returned", after, idx - 1);
+                    if (check && k >= 0) m->len[k] = -1;
+                    idx--;
+                }
+                if (n > 2 * M + 2) { if (check) vc_viol("image:walk-endless", "%s: walk with removal returned more than %d entries", after, 2 * M + 2); break; }
+            }
+            if (check && removed >= 0) { n_walkrm++; for (int k = 0; k < NK; k++) if (m->len[k] >= 0 && !seen[k]) vc_viol("image:walk-missed", "%s: walk that removed its element %d never returned stored key %d", after, op->k, k); }
+            r = removed >= 0;
+            break;
+        }
     }
     t->free(t);
     return r;
@@ -307,6 +329,7 @@ static void setup(void) {
     for (int k = 0; k < NK; k++) OPS[NOPS++] = (op_t){OP_REMOVE, k, 0, (k & 1) ? "qhasharr_remove_by_obj" : "qhasharr_remove"};
     for (int i = -1; i <= M + 1; i++) OPS[NOPS++] = (op_t){OP_REMOVEIDX, i, 0, "qhasharr_remove_by_idx"};   /* -1, M, M+1: indexes that are no slot */
     OPS[NOPS++] = (op_t){OP_CLEAR, 0, 0, "qhasharr_clear"};
+    for (int j = 1; j <= M && j <= 4; j++) OPS[NOPS++] = (op_t){OP_WALKRM, j, 0, "qhasharr_getnext"};
 }
 static void initial_image(unsigned char *img) {
     unsigned char *blk = malloc(REGSZ); memset(blk, 0xEE, REGSZ);
@@ -314,6 +337,7 @@ static void initial_image(unsigned char *img) {
     if (!t) { vc_viol("image:ctor", "qhasharr(mem, %zu) returned NULL", REGSZ); memset(img, 0, REGSZ); free(blk); return; }
     t->free(t); memcpy(img, blk, REGSZ); free(blk);
 }
+static int MAXDEPTH;
 static int search(void) {
     bfs_t b; bfs_init(&b);
     img_cap = REGSZ * 1024; IMG = __real_malloc(img_cap); MOD = __real_malloc(sizeof(model_t) * (img_cap / REGSZ + 1));
@@ -323,6 +347,7 @@ static int search(void) {
     int complete = 1;
     while (b.head < b.nnodes) {
         long idx = b.head++; int d = bfs_history(&b, idx, hist);
+        if (MAXDEPTH > 0 && d >= MAXDEPTH) continue;     /* depth-bounded run: every history of <= MAXDEPTH operations */
         if ((idx & 0xff) == 0 && vc_deadline_hit()) { complete = 0; break; }
         if (VC_ENOUGH_VIOLATIONS()) { complete = 0; break; }   /* enough counterexamples: do not explore the damaged state space to its end */
         memcpy(cur, IMG + idx * REGSZ, REGSZ); model_t mc = MOD[idx];
@@ -339,7 +364,7 @@ static int search(void) {
     vc_stat_add("states", b.nkeys); vc_stat_add("transitions", n_trans); vc_stat_add("max_depth", b.max_depth);
     vc_stat_add("wellformed_checks", n_wf); vc_stat_add("residue_differentials", n_diff); vc_stat_add("address_differentials", n_reloc_runs); vc_stat_add("copies_verified", n_copies); vc_stat_add("inputs_scribbled", n_scribbled);
     vc_stat_add("slots_free_seen", kinds_seen[0]); vc_stat_add("slots_leading_seen", kinds_seen[1]); vc_stat_add("slots_collision_seen", kinds_seen[2]); vc_stat_add("slots_extension_seen", kinds_seen[3]);
-    vc_stat_add("relocations", n_reloc); vc_stat_add("promotions", n_promote);
+    vc_stat_add("relocations", n_reloc); vc_stat_add("promotions", n_promote); vc_stat_add("walks_with_removal", n_walkrm);
     if (!complete) vc_exhaustive = 0;
     free(img0); free(nimg); free(cur); bfs_free(&b);
     return 0;
@@ -475,7 +500,7 @@ static int worker(int argc, char **argv) {
     if (!strcmp(argv[1], "bigkey")) { bigkey(); return 0; }
     if (!strcmp(argv[1], "ctor")) { ctor_family(atoi(argv[2])); return 0; }
     if (!strcmp(argv[1], "chain")) { vc_hang_ticks = 120; chain_family(atoi(argv[2])); return 0; }
-    M = atoi(argv[1]); setup();
+    M = atoi(argv[1]); MAXDEPTH = argc > 2 ? atoi(argv[2]) : 0; setup();
     char ks[256], *p = ks; for (int k = 0; k < NK; k++) p += sprintf(p, "%s(home %d) ", KEYS[k], HOME[k]);
     printf("NOTE\tM=%d slot=%zu bytes region=%zu keys: %s\n", M, sizeof(qhasharr_slot_t), REGSZ, ks);
     search();
